@@ -7,6 +7,10 @@
 (* division occurs).  The specification is written once over the ring      *)
 (* operations below and the ring is chosen by the model constant P:        *)
 (*   P = 0      the integers (Rust's truncating / and % for division)      *)
+(*   P = -1     the ordered field of exact rationals, a value being a      *)
+(*              normalised pair <<n, d>> (VekNum); used where a property   *)
+(*              needs ORDER as well as algebra (boxes, extrema, hit tests, *)
+(*              half-planes): FLt / FLe are only defined for P <= 0.       *)
 (*   P prime    the prime field Z_P.  P = 2, 3, 5 make the Law_* models    *)
 (*              exhaustive; P = 46337 (largest prime with P*P < 2^31, so   *)
 (*              TLC's 32-bit integers never overflow) is the field in which*)
@@ -15,14 +19,15 @@
 (*              its residue n * d^-1 mod P.                                *)
 (* Serves every algebraic property (C01-C12, C14, C19).                    *)
 (***************************************************************************)
-EXTENDS Integers, Sequences
+EXTENDS VekNum
 CONSTANT P
+PRational == 0 - 1     \* cfg files cannot write a negative literal: CONSTANT P <- PRational
 
-FI(x) == IF P = 0 THEN x ELSE x % P              \* integer -> ring element
-FAdd(a, b) == IF P = 0 THEN a + b ELSE (a + b) % P
-FSub(a, b) == IF P = 0 THEN a - b ELSE (a - b) % P
-FNeg(a) == IF P = 0 THEN -a ELSE (P - a) % P
-FMul(a, b) == IF P = 0 THEN a * b ELSE (a * b) % P
+FI(x) == IF P = 0 THEN x ELSE IF P < 0 THEN <<x, 1>> ELSE x % P              \* integer -> ring element
+FAdd(a, b) == IF P = 0 THEN a + b ELSE IF P < 0 THEN QAdd(a, b) ELSE (a + b) % P
+FSub(a, b) == IF P = 0 THEN a - b ELSE IF P < 0 THEN QSub(a, b) ELSE (a - b) % P
+FNeg(a) == IF P = 0 THEN -a ELSE IF P < 0 THEN QNeg(a) ELSE (P - a) % P
+FMul(a, b) == IF P = 0 THEN a * b ELSE IF P < 0 THEN QMul(a, b) ELSE (a * b) % P
 FSq(a) == FMul(a, a)
 RECURSIVE FPow(_, _)
 FPow(a, e) == IF e = 0 THEN FI(1)
@@ -32,19 +37,29 @@ AbsI(x) == IF x < 0 THEN -x ELSE x
 SgnI(x) == IF x < 0 THEN -1 ELSE IF x > 0 THEN 1 ELSE 0
 TruncDivI(a, b) == SgnI(a) * SgnI(b) * (AbsI(a) \div AbsI(b))
 \* multiplicative inverse (Fermat) / Rust integer division
-FInv(a) == IF P = 0 THEN TruncDivI(1, a) ELSE FPow(a, P - 2)
-FDiv(a, b) == IF P = 0 THEN TruncDivI(a, b) ELSE FMul(a, FInv(b))
+FInv(a) == IF P = 0 THEN TruncDivI(1, a) ELSE IF P < 0 THEN QInv(a) ELSE FPow(a, P - 2)
+FDiv(a, b) == IF P = 0 THEN TruncDivI(a, b) ELSE IF P < 0 THEN QDiv(a, b) ELSE FMul(a, FInv(b))
 FRem(a, b) == a - b * TruncDivI(a, b)            \* only meaningful for P = 0
-F0 == 0
+F0 == FI(0)
 F1 == FI(1)
 F2 == FI(2)
 FHalf == FInv(F2)
 RECURSIVE FSumFrom(_, _)
-FSumFrom(s, i) == IF i > Len(s) THEN 0 ELSE FAdd(s[i], FSumFrom(s, i + 1))
+FSumFrom(s, i) == IF i > Len(s) THEN F0 ELSE FAdd(s[i], FSumFrom(s, i + 1))
 FSum(s) == FSumFrom(s, 1)
 RECURSIVE FProdFrom(_, _)
 FProdFrom(s, i) == IF i > Len(s) THEN F1 ELSE FMul(s[i], FProdFrom(s, i + 1))
 FProd(s) == FProdFrom(s, 1)
+\* order (integers and exact rationals only)
+FLt(a, b) == IF P = 0 THEN a < b ELSE QLt(a, b)
+FLe(a, b) == IF P = 0 THEN a <= b ELSE QLe(a, b)
+FSgn(a) == IF P = 0 THEN Sgn(a) ELSE QSgn(a)
+FAbs(a) == IF FLt(a, F0) THEN FNeg(a) ELSE a
+FMin(a, b) == IF FLe(a, b) THEN a ELSE b
+FMax(a, b) == IF FLe(b, a) THEN a ELSE b
+\* an exact rational <<n, d>> read in the current ring (binds pair-coded fields of a record
+\* to residue-coded ones)
+FOfQ(q) == FDiv(FI(q[1]), FI(q[2]))
 \* the elements of the ring when it is finite
 FSet == 0 .. (P - 1)
 =============================================================================
